@@ -152,8 +152,11 @@ def _rb(v, tag):
     m = Marked(v); m.tag = tag; return m
 def job_red(o): return (_rb, (o.v, "job"))
 def res_red(o): return (_rb, (o.v, "res"))
+class Spy:          # records which pickler is selected in the worker at the moment the RESULT is serialised
+    def __init__(self, name=None): self.name = name
+    def __reduce__(self): return (Spy, (get_loky_pickler_name(),))
 def probe(x):
-    return (get_loky_pickler_name(), getattr(x, "tag", None), Marked(x.v + 1))
+    return (get_loky_pickler_name(), getattr(x, "tag", None), Marked(x.v + 1), Spy())
 """
 open(os.path.join(os.path.dirname(os.path.abspath(__file__)), "c15mod.py"), "w").write(MOD)
 sys.path.insert(0, os.path.dirname(os.path.abspath(__file__)))
@@ -168,15 +171,15 @@ if __name__ == "__main__":
         f1 = e.submit(probe, Marked(1))
         set_loky_pickler(second)
         f2 = e.submit(probe, Marked(10))
-        n1, t1, r1 = f1.result(60); n2, t2, r2 = f2.result(60)
+        n1, t1, r1, s1 = f1.result(60); n2, t2, r2, s2 = f2.result(60)
         e.shutdown()
         e2 = ProcessPoolExecutor(1, job_reducers={Marked: job_red})
-        n3, t3, r3 = e2.submit(probe, Marked(5)).result(60)
+        n3, t3, r3, _ = e2.submit(probe, Marked(5)).result(60)
         e2.shutdown()
         e3 = ProcessPoolExecutor(1)
-        n4, t4, r4 = e3.submit(probe, Marked(5)).result(60)
+        n4, t4, r4, _ = e3.submit(probe, Marked(5)).result(60)
         e3.shutdown()
-        out[first] = {"names": [n1, n2], "arg_tags": [t1, t2], "res_tags": [getattr(r1, "tag", None), getattr(r2, "tag", None)],
+        out[first] = {"names": [n1, n2], "result_pickled_with": [s1.name, s2.name], "arg_tags": [t1, t2], "res_tags": [getattr(r1, "tag", None), getattr(r2, "tag", None)],
                       "default_result_reducers": [t3, getattr(r3, "tag", None)], "no_reducers": [t4, getattr(r4, "tag", None)]}
     print(json.dumps(out))
 '''
@@ -188,9 +191,9 @@ def run(ctx):
     cases, fails = explore(ctx, n)
     res = runner.run_script(NAME, vlib.REPO, timeout=240)
     got = runner.last_json(res)
-    exp = {"pickle": {"names": ["pickle", "cloudpickle"], "arg_tags": ["job", "job"], "res_tags": ["res", "res"],
+    exp = {"pickle": {"names": ["pickle", "cloudpickle"], "result_pickled_with": ["pickle", "cloudpickle"], "arg_tags": ["job", "job"], "res_tags": ["res", "res"],
                       "default_result_reducers": ["job", "job"], "no_reducers": [None, None]},
-           "cloudpickle": {"names": ["cloudpickle", "pickle"], "arg_tags": ["job", "job"], "res_tags": ["res", "res"],
+           "cloudpickle": {"names": ["cloudpickle", "pickle"], "result_pickled_with": ["cloudpickle", "pickle"], "arg_tags": ["job", "job"], "res_tags": ["res", "res"],
                            "default_result_reducers": ["job", "job"], "no_reducers": [None, None]}}
     if got != exp:
         rp = vlib.write_replay(ctx, "real", {"kind": "executor-level scoping / pickler-name scenario deviates", "got": got,
